@@ -7,11 +7,15 @@ wt=$1; pid=$2; name=$3; shift 3
 cd "$(dirname "$0")/.."
 out=seeded/$name
 mkdir -p "$out"
-git -C "$wt" diff -- xdeps > "$out/patch.diff"
+if [ -f "$wt" ]; then      # <worktree> may also be a patch file; then DEMO=<demo.py> NOTES=<notes.md> name the other two
+  cp "$wt" "$out/patch.diff"; [ -n "${DEMO:-}" ] && cp "$DEMO" "$out/demo.py"; [ -n "${NOTES:-}" ] && cp "$NOTES" "$out/NOTES.md"
+else
+  git -C "$wt" diff -- xdeps > "$out/patch.diff"
+  demo=$(ls "$wt"/demo_*.py 2>/dev/null | head -1)
+  [ -n "$demo" ] && cp "$demo" "$out/demo.py"
+  [ -f "$wt"/NOTES_*.md ] && cp "$wt"/NOTES_*.md "$out/NOTES.md"
+fi
 [ -s "$out/patch.diff" ] || { echo "EMPTY PATCH"; exit 3; }
-demo=$(ls "$wt"/demo_*.py 2>/dev/null | head -1)
-[ -n "$demo" ] && cp "$demo" "$out/demo.py"
-[ -f "$wt"/NOTES_*.md ] && cp "$wt"/NOTES_*.md "$out/NOTES.md"
 scratch=$(mktemp -d /tmp/xdv_seed_XXXXXX)
 trap 'rm -rf "$scratch"' EXIT
 (cd /repo && git ls-files -z | xargs -0 cp --parents -t "$scratch/")
